@@ -358,4 +358,44 @@ theorem finish_spec (φ : Fault) (dest : Path) (old new : Bytes) (st : St) (r : 
         exact hs s (by simpa [St.step, St.states] using hsm)
   · exact Or.inl ⟨rfl, sysRemove_stable φ (tmpOf_ne dest) hs⟩
 
+/-! ### the same for a destination in ANY non-directory state (absent, a regular file, a symlink) -/
+
+theorem sysRename_cases_any (φ : Fault) (src dst : Path) (st : St) (n : Node) (o : Option Node)
+    (hs : get st.cur src = some n) (hd : get st.cur dst = o) (hnd : o ≠ some .dir) :
+    sysRename φ src dst st = (st, .err) ∨
+    sysRename φ src dst st = (st.step (set (del st.cur src) dst n), .ok) := by
+  unfold sysRename
+  by_cases hc : φ.renameFails = true
+  · simp [hc]
+  · cases o with
+    | none => simp [hc, hs, hd]
+    | some m =>
+      cases m with
+      | file b => simp [hc, hs, hd]
+      | symlink t => simp [hc, hs, hd]
+      | dir => exact absurd rfl hnd
+
+/-- outcome of a path save with respect to a destination that was in state `o` before (`none` =
+    the destination did not exist): an error with `o` in every state, or success where the last
+    state holds the new file and all earlier states `o` -/
+def SaveSpecAny (dest : Path) (o : Option Node) (new : Bytes) (out : St × R) : Prop :=
+  (out.2 = .err ∧ Stable dest o out.1) ∨
+  (out.2 = .ok ∧ get out.1.cur dest = some (.file new) ∧ ∀ s ∈ out.1.hist, get s dest = o)
+
+theorem finish_spec_any (φ : Fault) (dest : Path) (o : Option Node) (hnd : o ≠ some .dir) (new : Bytes)
+    (st : St) (r : R) (hs : Stable dest o st)
+    (hr : (r = .ok ∧ get st.cur (tmpOf dest) = some (.file new)) ∨ r = .err) :
+    SaveSpecAny dest o new (finish φ dest st r) := by
+  unfold finish
+  rcases hr with ⟨rfl, ht⟩ | rfl
+  · rcases sysRename_cases_any φ (tmpOf dest) dest st _ o ht hs.cur hnd with e | e
+    · simp only [e]
+      exact Or.inl ⟨rfl, sysRemove_stable φ (tmpOf_ne dest) hs⟩
+    · simp only [e]
+      refine Or.inr ⟨rfl, ?_, ?_⟩
+      · simp [St.step, get_set_same]
+      · intro s hsm
+        exact hs s (by simpa [St.step, St.states] using hsm)
+  · exact Or.inl ⟨rfl, sysRemove_stable φ (tmpOf_ne dest) hs⟩
+
 end Umya.Fs
